@@ -74,6 +74,7 @@ class SimWorld:
         self.shadow_orders = []  # orders accepted by place_order (incl. replacements) in acceptance order
         self.rc_history = {}
         self.replacements = set()
+        self.replaced_parents = set()
         self.owner_override = {}  # id(order) -> client it was (re)submitted through, when not the strategy's usual one
         self.true_reset = {}  # (strategy, lookup) -> time the last trade on the runner was observed complete
         self.completed_seen = {}  # id(order) -> (status, size_matched) when first observed complete at a boundary
@@ -687,6 +688,14 @@ class SimWorld:
                 self.shadow_orders.append(o)
                 self.replacements.add(id(o))
                 self.classes.add("replacement-order")
+                # the replacement belongs to the client of the order it replaces: the order of its trade that went
+                # through REPLACING and has not been matched with a replacement yet
+                for x in o.trade.orders:
+                    if x is not o and id(x) not in self.replaced_parents and "REPLACING" in [sname(y) for y in x.status_log]:
+                        self.replaced_parents.add(id(x))
+                        if id(x) in self.owner_override:
+                            self.owner_override[id(o)] = self.owner_override[id(x)]
+                        break
         if "lifecycle" in self.checks:
             self.inv_lifecycle()
         if "trades" in self.checks:
@@ -818,8 +827,6 @@ class SimWorld:
             owner = self.lab.clients[strat.sspec.get("client", 0)]  # the client the strategy trades through
             if id(o) in self.owner_override:
                 owner = self.owner_override[id(o)]
-            elif id(o) in self.replacements:
-                owner = next((self.owner_override[id(x)] for x in o.trade.orders if id(x) in self.owner_override), owner)
             if o.client is not owner:
                 self.fail("order-client", ("replacement" if id(o) in self.replacements else "placed",),
                           "order belongs to client %s but its strategy trades through %s" % (o.client.username if o.client else None, owner.username))
@@ -858,16 +865,39 @@ class SimWorld:
                 self.nontrivial = True
         # filters
         statuses = list(OrderStatus)
+        present = {o.status for o in self.shadow_orders}
+        # every filtered view: (name, query, the shadow orders the unfiltered view holds)
+        views = []
         for strat in strategies:
             mine = [o for o in self.shadow_orders if o.trade.strategy is strat]
+            views.append(("strategy_orders", (lambda st_, mo, s_=strat: blotter.strategy_orders(s_, order_status=st_, matched_only=mo)), mine))
+            for sel, hc in sorted({(o.selection_id, o.handicap) for o in mine}):
+                views.append(("strategy_selection_orders",
+                              (lambda st_, mo, s_=strat, a=sel, b=hc: blotter.strategy_selection_orders(s_, a, b, order_status=st_, matched_only=mo)),
+                              [o for o in mine if (o.selection_id, o.handicap) == (sel, hc)]))
+            for cl in clients:
+                views.append(("client_strategy_orders",
+                              (lambda st_, mo, s_=strat, c_=cl: blotter.client_strategy_orders(c_, s_, order_status=st_, matched_only=mo)),
+                              [o for o in mine if o.client is cl]))
+        for cl in clients:
+            views.append(("client_orders", (lambda st_, mo, c_=cl: blotter.client_orders(c_, order_status=st_, matched_only=mo)),
+                          [o for o in self.shadow_orders if o.client is cl]))
+        for vi, (name, query, base) in enumerate(views):
             for r in (1, 2):
                 for subset in itertools.combinations(statuses, r):
+                    if vi and not (present & set(subset)):
+                        continue  # (the strategy view is queried with every subset; the others with those that can select something)
                     for mo in (None, True):
-                        got = blotter.strategy_orders(strat, order_status=list(subset), matched_only=mo)
-                        exp = [o for o in mine if o.status in subset and (not mo or o.size_matched > 0)]
+                        got = query(list(subset), mo)
+                        exp = [o for o in base if o.status in subset and (not mo or o.size_matched > 0)]
                         if sorted(map(id, got)) != sorted(map(id, exp)):
-                            self.fail("blotter-filter", ("matched_only" if mo else "status",), "filter %s matched_only=%s returned %d orders, expected %d" % (
-                                [s.name for s in subset], mo, len(got), len(exp)))
+                            self.fail("blotter-filter", ("matched_only" if mo else "status",) + (() if name == "strategy_orders" else (name,)),
+                                      "%s filter %s matched_only=%s returned %d orders, expected %d" % (name, [s.name for s in subset], mo, len(got), len(exp)))
+            got = query(None, True)
+            exp = [o for o in base if o.size_matched > 0]
+            if sorted(map(id, got)) != sorted(map(id, exp)):
+                self.fail("blotter-filter", ("matched_only-alone",) + (() if name == "strategy_orders" else (name,)),
+                          "%s matched_only=True returned %d orders, expected %d" % (name, len(got), len(exp)))
 
     def inv_exposure_consequence(self):
         """under acknowledgement discipline the worst case on each selection stays within the limit"""
